@@ -180,6 +180,15 @@ func (op _OpcodeType) decodeI(x uint32) (as abi.As, arg *abi.AsArgument, argRaw 
 	for i, ctx := range _AOpContextTable {
 		if ctx.Opcode == op {
 			if ctx.Funct3 == funct3 {
+				if ctx.HasShamt {
+					// SLLI/SRLI/SRAI(W): imm[11:6] 区分逻辑/算术移位, imm[5:0] 是移位量
+					if (uint32(imm)>>6)&0b_11_1111 != ctx.Funct7>>1 {
+						continue
+					}
+					imm &= 0b_11_1111
+					argRaw.Imm = imm
+					arg.Imm = imm
+				}
 				as = abi.As(i)
 				break
 			}
@@ -250,11 +259,11 @@ func (op _OpcodeType) decodeB(x uint32) (as abi.As, arg *abi.AsArgument, argRaw 
 	rs1 := (x >> 15) & 0b_1_1111
 	rs2 := (x >> 20) & 0b_1_1111
 
-	imm12 := x & (1 << 31)
+	imm12 := (x >> 31) << 12
 	imm5_10 := ((x >> 25) & 0b_11_1111) << 5
 	imm1_4 := ((x >> 8) & 0b_1111) << 1
 	imm11 := ((x >> 7) & 0b_1) << 11
-	imm := int32(imm12 | imm11 | imm5_10 | imm1_4)
+	imm := int32(imm12|imm11|imm5_10|imm1_4) << 19 >> 19 // 13bit 有符号数
 
 	funct3 := (x >> 12) & 0b_111
 
